@@ -221,7 +221,7 @@ def alg_cov(ctx, st):
                    subsets_recovered=st['SubsetsChecked'], key_generations_with_a_storage_fault_on_one_machine=st.get('C02StorageFaults', 0), driver_notes=st.get('Notes') or [])
 
 
-ALG_RULE = ('full ceremonies for the (n,t) of the tier with random answering orders; per ceremony 2-3 batches (explicit payloads incl. unusual file names, baked ranges) signed by a random subset of size t..n in random order, the rest late or silent; up to 12 t-subsets of real shares recovered in random order; one key generation (quick: (3,2), random machine; thorough: (3,2),(2,2),(3,3),(4,3), every machine) in which the database of one airgapped machine is closed while it handles the master-key operation and the machine is restarted afterwards: a signing-ready node implies a share on its retained polynomial on every machine; '
+ALG_RULE = ('full ceremonies for the (n,t) of the tier with random answering orders; per ceremony 2-3 batches (explicit payloads incl. unusual file names, baked ranges) signed by a random subset of size t..n in random order, the rest late or silent; up to 12 t-subsets of real shares recovered in random order; one key generation (quick: (3,2), random machine; thorough: (3,2),(2,2),(3,3),(4,3), every machine) in which the database of one airgapped machine is closed while it handles the master-key operation and the machine is restarted afterwards: a signing-ready node implies a share on its retained polynomial on every machine; per ceremony one batch in which a signer\'s machine (wrong password) REPORTS a signing error while exactly t-1 others sign (whatever is stored must verify; for t<n the rest sign later and the batch must complete) and, for t<n, a node that is away for two whole batches and then reads everything it is behind in ONE poll tick; '
             'distinct_nontrivial = shares + subsets + batches compared')
 
 
@@ -364,7 +364,7 @@ def prog_C07(ctx):
 def prog_C11(ctx):
     fsm_part(ctx, ['C05', 'C11'], ['event_dkg'])
     res = generic(ctx, ['Dc4bcVerif.Props.C11', 'Dc4bcVerif.Props.C11Air', 'Dc4bcVerif.Props.C12AirOrder', 'Dc4bcVerif.Props.AirDkgSrc', 'Dc4bcVerif.Props.C02'], 'algdiff', 'alg', ['C11'], ALG_TRUSTED,
-            ALG_RULE + '; C11: one key generation per (deviation kind, dealer, victim): broadcast commitments with replaced tail / all replaced / longer / shorter / a non-point, deal bit-flipped / truncated / empty / meant for somebody else, a response turned into a complaint; quick: (3,2) one pair per kind; thorough: four configurations, all or sampled pairs; plus a control run without deviation',
+            ALG_RULE + '; C11: one key generation per (deviation kind, dealer, victim): broadcast commitments with replaced tail / all replaced / longer / shorter / a non-point, deal bit-flipped / truncated / empty / meant for somebody else, a response turned into a complaint, a well-formed ciphertext of {} (a deal naming dealer 0), the self-confirmation marker as a deal; quick: (3,2) one pair per kind; thorough: four configurations, all or sampled pairs; plus a control run without deviation',
             cov_from_stats=alg_cov)
     airdkg_part(ctx, res)
     ctx.assumptions += ['a deviating participant is played by rewriting its own airgapped result before its own node posts it (executeOperation binds ID, type and request payload, not the result messages)']
@@ -416,7 +416,7 @@ def air_cov(ctx, st):
 def prog_C12(ctx):
     res = generic(ctx, ['Dc4bcVerif.Props.C12', 'Dc4bcVerif.Props.C12Process', 'Dc4bcVerif.Props.C12Air', 'Dc4bcVerif.Props.C12AirOrder', 'Dc4bcVerif.Props.AirDkgSrc', 'Dc4bcVerif.Props.C12Seed', 'Dc4bcVerif.Props.C18Air'], 'airdiff', 'air', ['C12'], AIR_TRUSTED +
             ['translator: every write to and every use of the airgapped machine\'s in-memory base seed, and what dkg.InitDKGInstance does with the slice it is handed (Gen/SeedFacts.lean), regenerated on every run; frand.NewCustom / sha256 / the suite constructor not writing their argument is trusted and exercised by the second-ceremony restarts'],
-            'ceremonies (3,2),(2,2) [thorough: +(4,3),(3,3)]; per ceremony one participant: restart before every operation, and (sampled in quick, all in thorough) kill-before-log and kill-after-log at every operation, plus one run restarting after every step; two clones fed the same operations; then a SECOND ceremony of the same participants handled by the same process: the same restart points inside it (sampled in quick), and a machine fed the second ceremony alone',
+            'ceremonies (3,2),(2,2) [thorough: +(4,3),(3,3)]; per ceremony one participant: restart before every operation, and (sampled in quick, all in thorough) kill-before-log and kill-after-log at every operation, plus one run restarting after every step; two clones fed the same operations; then a SECOND ceremony of the same participants handled by the same process: the same restart points inside it (sampled in quick), and a machine fed the second ceremony alone; a machine started on an EMPTY database (it keeps the seed it generated; the mnemonic it prints is captured) against a machine made with set_seed from that mnemonic: same seed, long-term key, commitments and share; the airdkg stream: every key-generation operation, and a machine stopped, reopened and replayed after every operation',
             cov_from_stats=air_cov)
     # the concrete handlers: every key-generation operation of the ceremonies, and a machine stopped, opened again and replayed
     # after every operation, against Model/AirDkg.lean (`stop` + the logged operations again); Props/C12Air.lean
@@ -434,7 +434,7 @@ def prog_C20(ctx):
             ['translator: the order in which CalcStartReInitDKGMessageHash writes the fields (Gen/NodeGlue.lean reinitHashOrder), regenerated on every run; order_matches_source is kernel-evaluated',
              'reinitdiff: a completed real ceremony (signing batches and junk on the board, incl. a forged decline every original node rejected) is re-initialised from a dump of its board on fresh nodes with new communication keys and fresh airgapped databases with the same mnemonics, through GenerateReDKGMessage (+ GetAdaptedReDKG on dumps stripped of self-confirmations), ReInitDKG, the reinit operation and the airgapped replay; every node must end signing-ready with the same participants, threshold and public polynomial, every machine with the same share, a batch signed afterwards must verify (prysm) under the ORIGINAL group key; the confirmation hash must be the same on every node and change under every single-field edit (the Lean model of the hashed byte string must agree on every edit)',
              'assumed: SHA-1 collision resistance; %d rendering injective; the glue of reinitDKG / handleReinitDKG is exercised, not modelled'],
-            'three ceremonies quick [(3,2) plain; (2,2) with signing batches and junk; (3,2) junk + 0.1.4 adaptation], seven thorough; per file: every header and participant field, and 7 fields of 12 (quick) or all (thorough) messages, messages of other rounds first',
+            'per scenario also: every re-initialised machine stopped, reopened and replayed, then a batch (must verify under the original group key), and the reinit operation handed over a second time after a kill between key ring and log; a fourth quick scenario whose junk holds a signing proposal posted before the end of the key generation (fix c405ec9); three ceremonies quick [(3,2) plain; (2,2) with signing batches and junk; (3,2) junk + 0.1.4 adaptation], seven thorough; per file: every header and participant field, and 7 fields of 12 (quick) or all (thorough) messages, messages of other rounds first',
             cov_from_stats=cov)
     # the node side: the Lean model of reinitDKG is compared with the real handler on real dumps (plain and adapted), and
     # crafted reinit messages are probed against existing rounds
